@@ -43,6 +43,30 @@ func c06Access(st *Store, root *tnode, target *tnode, path string, access string
 			log = st.ReadLog()
 			return
 		}
+		if access == "entity-selector+AsBytes-consumer" {
+			// the entity walk with a consumer that takes the matched file as one value
+			sel, e := selector.CompileSelector(unixfsnode.UnixFSPathSelectorBuilder("", unixfsnode.MatchUnixFSEntitySelector, false))
+			if e != nil {
+				err = e
+				return
+			}
+			pn, e := loadPlain(ls, target.Root)
+			if e != nil {
+				err = e
+				return
+			}
+			st.ResetLogs()
+			prog := traversal.Progress{Cfg: &traversal.Config{Ctx: c06Ctx, LinkSystem: *ls, LinkTargetNodePrototypeChooser: protoChooser}}
+			err = prog.WalkMatching(pn, sel, func(p traversal.Progress, n datamodel.Node) error {
+				if n.Kind() != datamodel.Kind_Bytes {
+					return nil
+				}
+				_, e := n.AsBytes()
+				return e
+			})
+			log = st.ReadLog()
+			return
+		}
 		if access == "entity-selector+seeking-consumer" {
 			// the entity walk with a consumer that first asks for the size, rewinds and then copies (what http.ServeContent does)
 			sel, e := selector.CompileSelector(unixfsnode.UnixFSPathSelectorBuilder("", unixfsnode.MatchUnixFSEntitySelector, false))
@@ -301,8 +325,8 @@ const c06HandRule = "case = hand-assembled well-formed file DAG with 1..7 chunks
 func TestC06_P_HandmadeFiles(t *testing.T) {
 	ev := newEvid(t, c06HandRule)
 	rapid.Check(t, func(t *rapid.T) {
-		fc := genHandFileDAG(t, true)
-		access := rapid.SampledFrom([]string{"reifier", "preload-selector", "entity-selector", "entity-walk-of-probed-node", "reifier-via-reifying-ls", "NewUnixFSFileWithPreload(reified)", "entity-selector+seeking-consumer"}).Draw(t, "access")
+		fc := genHandFileDAGOpt(t, handOpts{OldStyle: true, SpareBlockSize: true, BigChunks: true})
+		access := rapid.SampledFrom([]string{"reifier", "preload-selector", "entity-selector", "entity-walk-of-probed-node", "reifier-via-reifying-ls", "NewUnixFSFileWithPreload(reified)", "entity-selector+seeking-consumer", "entity-selector+AsBytes-consumer"}).Draw(t, "access")
 		target := &tnode{Root: fc.Root, Data: fc.Data, Entity: fc.Tree.PreOrder()}
 		log, err, p := c06Access(fc.St, target, target, "", access)
 		if p != nil {
